@@ -51,11 +51,12 @@ From Peppi Require Import Gen.FrameTranspose Proofs.FrameTransposeLayout.
    src/frame/mutable.rs), regenerated (Gen/FrameTranspose.v): the hand model [frame_view] IS the interpretation of the regenerated
    tables (which column each field of the row view is taken from, the version gate of start / end / items, leader / follower),
    index errors and panics included; the mutable (in-progress) and immutable (finished) representations have the same tables.
-   [items_present] excludes only frame sets with item offsets but no item columns, which no constructor produces *)
-Theorem C13_frame_view_from_source : forall v fr i, items_present fr ->
+   Unconditional: for EVERY version, frame set and index, also the frame sets no constructor produces (item offsets without item
+   columns: self.item is unwrapped only inside the loop over the frame's items, in the source and in the hand model alike) *)
+Theorem C13_frame_view_from_source : forall v fr i,
   frame_view v fr i = frame_view_tbl imm_frame_transpose imm_portdata_transpose imm_data_transpose v fr i.
 Proof. exact frame_view_from_source. Qed.
-Theorem C13_frame_view_mutable_from_source : forall v fr i, items_present fr ->
+Theorem C13_frame_view_mutable_from_source : forall v fr i,
   frame_view v fr i = frame_view_tbl mut_frame_transpose mut_portdata_transpose mut_data_transpose v fr i.
 Proof. exact frame_view_mutable_from_source. Qed.
 Theorem C13_transpose_tables_agree :
